@@ -208,7 +208,7 @@ def run(tier, seed, work):
         res.inconclusive.append("cannot drop privileges with setpriv: permission semantics cannot be exercised")
         res.evaluations = 0
         return res
-    ntrees = 600 if tier == "quick" else 8000
+    ntrees = 2400 if tier == "quick" else 16000
     ops = OPS[:2] + OPS[2:] if tier == "thorough" else OPS
     items = []
     for i in range(ntrees):
